@@ -36,6 +36,14 @@ enum Op {
     /// another open handle - shared or exclusive; `None` releases it. Rewriting a location must
     /// not depend on locks nobody asked it to take
     AdvisoryLock { exclusive: Option<bool> },
+    /// environment: from here on the caller names the file another way - 0 its own path, 1 a
+    /// symbolic link next to it (a stable name `current.jbk -> edition.jbk`), 2 a hard link,
+    /// 3 a path with `.` and `..` components. The same file is rewritten whatever it is called
+    NamedThrough { how: u8 },
+    /// a request the library cannot grant: a location longer than the 213 bytes a pack
+    /// description holds. Refusing it (error or panic) is fine; it must change nothing, and every
+    /// later request must be served as if this one had never been made
+    Overlong { pack: usize, len: usize },
 }
 
 fn containers(seed: u64, tier: Tier) -> Vec<(String, Logical)> {
@@ -216,6 +224,15 @@ fn gen_history(rng: &mut Rng, n_listed: usize, tier: Tier, boundary: &[usize], f
                 bytes: rng.below(file_len + 300),
             });
         }
+        if rng.chance(1, 8) {
+            ops.push(Op::NamedThrough { how: rng.below(4) as u8 });
+        }
+        if rng.chance(1, 12) {
+            ops.push(Op::Overlong {
+                pack: rng.usize_below(n_listed),
+                len: *rng.pick(&[214usize, 215, 216, 217, 255, 256, 300, 70000]),
+            });
+        }
         match rng.below(10) {
             0 => ops.push(Op::SetUnknown {
                 uuid_seed: rng.next_u64(),
@@ -318,11 +335,22 @@ struct Image {
 
 /// how often the file size limit made a rewrite fail (evidence: faults that actually fired)
 static REFUSED: std::sync::atomic::AtomicU64 = std::sync::atomic::AtomicU64::new(0);
+static NAMED_OTHERWISE: std::sync::atomic::AtomicU64 = std::sync::atomic::AtomicU64::new(0);
+static OVERLONG: std::sync::atomic::AtomicU64 = std::sync::atomic::AtomicU64::new(0);
 
 /// Run `f` while the process may not grow or write any file beyond `limit` bytes (soft
 /// RLIMIT_FSIZE; SIGXFSZ is ignored process-wide by the worker, so the write fails with EFBIG).
 fn with_file_size_limit<T>(limit: Option<u64>, f: impl FnOnce() -> T) -> T {
     let Some(l) = limit else { return f() };
+    // (the limit is lifted again even when `f` panics: the harness writes files afterwards)
+    struct Restore(libc::rlimit);
+    impl Drop for Restore {
+        fn drop(&mut self) {
+            unsafe {
+                libc::setrlimit(libc::RLIMIT_FSIZE, &self.0);
+            }
+        }
+    }
     unsafe {
         let mut old: libc::rlimit = std::mem::zeroed();
         libc::getrlimit(libc::RLIMIT_FSIZE, &mut old);
@@ -331,9 +359,8 @@ fn with_file_size_limit<T>(limit: Option<u64>, f: impl FnOnce() -> T) -> T {
             rlim_max: old.rlim_max,
         };
         libc::setrlimit(libc::RLIMIT_FSIZE, &new);
-        let r = f();
-        libc::setrlimit(libc::RLIMIT_FSIZE, &old);
-        r
+        let _restore = Restore(old);
+        f()
     }
 }
 
@@ -438,7 +465,56 @@ fn run_history(dir: &Path, img: &Image, ops: &[Op]) -> (Vec<String>, usize) {
     }
     let mut limit: Option<u64> = None;
     let mut lock_holder: Option<std::fs::File> = None;
+    // the name under which the caller designates the file (Op::NamedThrough)
+    let mut call_path: std::path::PathBuf = entry.clone();
     for (si, op) in flat.iter().enumerate() {
+        if let Op::NamedThrough { how } = op {
+            let entry_name = &img.files[0].0;
+            call_path = match how {
+                1 => {
+                    let l = dir.join("current-edition.lnk");
+                    let _ = std::fs::remove_file(&l);
+                    std::os::unix::fs::symlink(entry_name, &l).unwrap_or_else(|e| simcore::harness_error(&format!("C12: symlink: {e}")));
+                    l
+                }
+                2 => {
+                    let l = dir.join("second-name.hardlink");
+                    let _ = std::fs::remove_file(&l);
+                    std::fs::hard_link(&entry, &l).unwrap_or_else(|e| simcore::harness_error(&format!("C12: hard link: {e}")));
+                    l
+                }
+                3 => {
+                    let sub = dir.join("sub");
+                    let _ = std::fs::create_dir_all(&sub);
+                    dir.join("sub").join("..").join(".").join(entry_name)
+                }
+                _ => entry.clone(),
+            };
+            NAMED_OTHERWISE.fetch_add((*how != 0) as u64, std::sync::atomic::Ordering::Relaxed);
+            continue;
+        }
+        if let Op::Overlong { pack, len } = op {
+            let loc = "L".repeat(*len);
+            let uuid = model[*pack % model.len()].uuid;
+            // (the refusal may be a panic: the process-wide hook is silenced for this one call)
+            let hook = std::panic::take_hook();
+            std::panic::set_hook(Box::new(|_| {}));
+            let r = std::panic::catch_unwind(std::panic::AssertUnwindSafe(|| jubako::tools::set_location(&call_path, uuid, loc.as_str().into())));
+            std::panic::set_hook(hook);
+            OVERLONG.fetch_add(1, std::sync::atomic::Ordering::Relaxed);
+            let step = format!("step {si} (a location of {len} bytes is asked for)");
+            if let Ok(Ok(Some(_))) = r {
+                bad.push(format!("{step}: set_location says it stored it"));
+            }
+            match std::fs::read(&entry) {
+                Ok(now) if now == prev => {}
+                _ => bad.push(format!("{step}: the refused request changed the file")),
+            }
+            if !bad.is_empty() {
+                return (bad, steps);
+            }
+            continue;
+        }
         if let Op::AdvisoryLock { exclusive } = op {
             lock_holder = None;
             if let Some(x) = exclusive {
@@ -473,7 +549,7 @@ fn run_history(dir: &Path, img: &Image, ops: &[Op]) -> (Vec<String>, usize) {
                 Rng::derive(*uuid_seed, "c12-unknown-uuid", 0).fill(&mut b);
                 (uuid::Uuid::from_bytes(b), resolve(loc), None)
             }
-            Op::RestoreAll | Op::FileSizeLimit { .. } | Op::AdvisoryLock { .. } => unreachable!(),
+            Op::RestoreAll | Op::FileSizeLimit { .. } | Op::AdvisoryLock { .. } | Op::NamedThrough { .. } | Op::Overlong { .. } => unreachable!(),
             Op::SetEquivalent { pack, how } => {
                 let cur = model[*pack].location.clone();
                 let new = match how {
@@ -493,7 +569,7 @@ fn run_history(dir: &Path, img: &Image, ops: &[Op]) -> (Vec<String>, usize) {
                 (model[*pack].uuid, new, Some(*pack))
             }
         };
-        let res = with_file_size_limit(limit, || jubako::tools::set_location(&entry, uuid, loc.as_str().into()));
+        let res = with_file_size_limit(limit, || jubako::tools::set_location(&call_path, uuid, loc.as_str().into()));
         if limit.is_some() && res.is_err() {
             REFUSED.fetch_add(1, std::sync::atomic::Ordering::Relaxed);
             // the write was refused by the environment and the library said so: nothing is
@@ -669,6 +745,8 @@ fn ops_json(ops: &[Op]) -> Value {
             Op::SetEquivalent { pack, how } => json!({"equivalent": pack, "how": how}),
             Op::FileSizeLimit { bytes } => json!({"file-size-limit": bytes}),
             Op::AdvisoryLock { exclusive } => json!({"advisory-lock": exclusive}),
+            Op::NamedThrough { how } => json!({"named-through": how}),
+            Op::Overlong { pack, len } => json!({"overlong": pack, "len": len}),
         })
         .collect::<Vec<_>>())
 }
@@ -682,6 +760,10 @@ fn ops_from_json(v: &Value) -> Vec<Op> {
                 Op::RestoreAll
             } else if let Some(x) = o.get("advisory-lock") {
                 Op::AdvisoryLock { exclusive: x.as_bool() }
+            } else if let Some(x) = o.get("named-through") {
+                Op::NamedThrough { how: x.as_u64().unwrap() as u8 }
+            } else if let Some(p) = o.get("overlong") {
+                Op::Overlong { pack: p.as_u64().unwrap() as usize, len: o["len"].as_u64().unwrap() as usize }
             } else if let Some(b) = o.get("file-size-limit") {
                 Op::FileSizeLimit {
                     bytes: b.as_u64().unwrap(),
@@ -818,8 +900,12 @@ pub fn worker_main(args: &Args, w: usize, n: usize) -> ! {
             let mut rng = Rng::derive(args.seed, &format!("c12-history-{name}"), h);
             let ops = gen_history(&mut rng, n_listed, args.tier, &boundary, img.files[0].1.len() as u64);
             REFUSED.store(0, std::sync::atomic::Ordering::Relaxed);
+            NAMED_OTHERWISE.store(0, std::sync::atomic::Ordering::Relaxed);
+            OVERLONG.store(0, std::sync::atomic::Ordering::Relaxed);
             let r = std::panic::catch_unwind(std::panic::AssertUnwindSafe(|| run_history(&case_dir, &img, &ops)));
             let refused = REFUSED.load(std::sync::atomic::Ordering::Relaxed);
+            let named_otherwise = NAMED_OTHERWISE.load(std::sync::atomic::Ordering::Relaxed);
+            let overlong = OVERLONG.load(std::sync::atomic::Ordering::Relaxed);
             let (bad, steps) = match r {
                 Ok(x) => x,
                 Err(_) => {
@@ -843,7 +929,7 @@ pub fn worker_main(args: &Args, w: usize, n: usize) -> ! {
             println!(
                 "{}",
                 json!({"t":"case","ii":ii,"image":img.name,"h":h,"ops":ops_json(&ops),"steps":steps,"bad":bad,
-                       "minimised": min_ops, "write_refused_by_file_size_limit": refused,
+                       "minimised": min_ops, "write_refused_by_file_size_limit": refused, "named_otherwise": named_otherwise, "overlong_requests": overlong,
                        "file_size_limited": ops.iter().any(|o| matches!(o, Op::FileSizeLimit { .. })),
                        "max_loc": ops.iter().map(|o| match o { Op::Set{loc,..} | Op::SetUnknown{loc,..} => loc.len(), _ => 0}).max().unwrap_or(0)})
             );
@@ -901,6 +987,12 @@ pub fn parent_main(args: &Args) -> ! {
             boundary += 1;
         }
         let refused = r["write_refused_by_file_size_limit"].as_u64().unwrap_or(0);
+        if r["named_otherwise"].as_u64().unwrap_or(0) > 0 {
+            ev.fired("environment:file-named-through-symlink/hard-link/dotted-path", r["named_otherwise"].as_u64().unwrap());
+        }
+        if r["overlong_requests"].as_u64().unwrap_or(0) > 0 {
+            ev.fired("request-the-library-must-refuse (location above 213 bytes)", r["overlong_requests"].as_u64().unwrap());
+        }
         if refused > 0 {
             ev.fired("write-refused-by-file-size-limit (EFBIG)", refused);
         }
